@@ -907,10 +907,17 @@ func (ackHandler) HandleMessage(c *Client, msg Message) {
 func (c *Client) passToHandler(hdr Header) (err error) {
 	handler := c.handlers[hdr.typ]
 
-	c.awaitMu.Lock()
-	replyChan, needsReply := c.awaiting[hdr.id]
-	delete(c.awaiting, hdr.id)
-	c.awaitMu.Unlock()
+	// KeepAlives, tag reports and reader events are sent on the reader's own initiative
+	// with IDs from the reader's own counter: they are never the reply to a request,
+	// even if their ID happens to equal that of an outstanding one.
+	var replyChan chan<- Message
+	needsReply := false
+	if hdr.typ != MsgKeepAlive && hdr.typ != MsgROAccessReport && hdr.typ != MsgReaderEventNotification {
+		c.awaitMu.Lock()
+		replyChan, needsReply = c.awaiting[hdr.id]
+		delete(c.awaiting, hdr.id)
+		c.awaitMu.Unlock()
+	}
 
 	if !needsReply && handler == nil && c.defaultHandler == nil {
 		c.logger.MsgUnhandled(hdr)
